@@ -3,6 +3,7 @@
  * stream B (side=1): negative half - in-scope structural corruptions must be rejected with validation on; arbitrary arrays memory-safe */
 #include "vparams.h"
 #include "refdec.h"
+#include "vdict.h"
 
 static size_t g_maxSize;
 
@@ -94,15 +95,16 @@ static const char* list_invalid(const ZSTD_Sequence* s, size_t ns, size_t srcSiz
     return NULL;
 }
 
+static int g_dictFormatted;   /* the dictionary handed to verify_frame is a formatted one (magic, entropy tables, content) */
 static void verify_frame(const char* what, const uint8_t* f, size_t fsz, const uint8_t* src, size_t n, const uint8_t* dict, size_t dlen, const char* desc, size_t windowLimit)
 {
     uint8_t* out = (uint8_t*)malloc(n + 1);
     ZSTD_DCtx* d = ZSTD_createDCtx(); ZSTD_DCtx_setParameter(d, ZSTD_d_windowLogMax, 30);
-    if (dict) ZSTD_DCtx_loadDictionary_advanced(d, dict, dlen, ZSTD_dlm_byRef, ZSTD_dct_rawContent);
+    if (dict) ZSTD_DCtx_loadDictionary_advanced(d, dict, dlen, ZSTD_dlm_byRef, g_dictFormatted ? ZSTD_dct_fullDict : ZSTD_dct_rawContent);
     size_t const r = ZSTD_decompressDCtx(d, out, n, f, fsz);
     if (ZSTD_isError(r) || r != n || memcmp(out, src, n)) v_viol("positive:frame-does-not-decode(lib)", "%s %s: %s", what, desc, ZSTD_isError(r) ? ZSTD_getErrorName(r) : "mismatch");
     ZSTD_freeDCtx(d);
-    refdec_info_t I; memset(&I, 0, sizeof I); I.keep_blocks = 1; refdec_dict_t* rd = dict ? refdec_dict_create(dict, dlen, 1) : NULL;
+    refdec_info_t I; memset(&I, 0, sizeof I); I.keep_blocks = 1; refdec_dict_t* rd = dict ? refdec_dict_create(dict, dlen, g_dictFormatted ? 2 : 1) : NULL;
     memset(out, 0, n);
     if (!refdec_decode(out, n, f, fsz, rd, &I, 0)) v_viol("positive:frame-rejected-by-R", "%s %s: %s", what, desc, I.err ? I.err : "?");
     else if (I.out_size != n || memcmp(out, src, n)) v_viol("positive:frame-decodes-to-other-bytes(R)", "%s %s", what, desc);
@@ -116,19 +118,20 @@ static void verify_frame(const char* what, const uint8_t* f, size_t fsz, const u
 }
 
 /* ---------------------------------------------------------------- external producer */
-typedef struct { vrng* r; const parsecfg* C; int mode; long calls; } prodstate;   /* mode 0 ok, 1 error, 2 too many, 3 zero seqs for non-empty */
+typedef struct { vrng* r; const parsecfg* C; int mode; long calls; long failed; uint32_t failMask; int maxSeqs; } prodstate;   /* mode 0 ok, 1 error, 2 too many, 3 zero seqs for non-empty; failMask: which of the
+                                          first 32 calls fail (later ones follow bit 31); maxSeqs >= 0: at most that many sequences per block, the rest of the block is literals of the delimiter */
 static size_t producer(void* st, ZSTD_Sequence* outSeqs, size_t outSeqsCapacity, const void* src, size_t srcSize, const void* dict, size_t dictSize, int level, size_t windowSize)
 {
     prodstate* P = (prodstate*)st; (void)dict; (void)dictSize; (void)level; P->calls++;
-    if (P->mode == 1) return ZSTD_SEQUENCE_PRODUCER_ERROR;
-    if (P->mode == 2) return outSeqsCapacity + 1;
-    if (P->mode == 3) return 0;
+    {   int const failsNow = P->mode != 0 && ((P->failMask >> (P->calls - 1 > 31 ? 31 : P->calls - 1)) & 1) && srcSize > 0;
+        if (failsNow) { P->failed++; if (P->mode == 1) return ZSTD_SEQUENCE_PRODUCER_ERROR; if (P->mode == 2) return outSeqsCapacity + 1; return 0; } }
     parsecfg C = *P->C; C.explicitDelims = 1; C.blockMax = srcSize ? srcSize : 1; C.window = V_MIN(C.window, windowSize); C.dictLen = 0; C.dict = NULL;
     seqvec v = { 0, 0, 0 }; long st2[4] = { 0, 0, 0, 0 };
     /* one block == the whole input of this call; the single delimiter ends it. offsets limited to this block (no history known here) */
     {   parsecfg C2 = C; vrng rr = *P->r; size_t const n = srcSize;
         /* parse with blockEnd == n: implement by using non-explicit parse then appending the delimiter */
         C2.explicitDelims = 0; parse(&rr, (const uint8_t*)src, n, &C2, &v, st2);
+        if (P->maxSeqs >= 0 && v.n > (size_t)P->maxSeqs) v.n = (size_t)P->maxSeqs;
         size_t consumed = 0; for (size_t i = 0; i < v.n; i++) consumed += v.s[i].litLength + v.s[i].matchLength;
         sv_push(&v, 0, (uint32_t)(n - consumed), 0); }
     if (v.n > outSeqsCapacity) { free(v.s); return ZSTD_SEQUENCE_PRODUCER_ERROR; }
@@ -142,11 +145,12 @@ static void run_positive(long idx)
     size_t const n = pick_size(&r, g_maxSize);
     uint8_t* src = (uint8_t*)malloc(n + 8); gen_data(&r, src, n, fam);
     int const wlog = (int)vr_range(&r, 10, 21); unsigned const minMatch = (unsigned)vr_range(&r, 3, 7);
-    int const maxBlock = vr_chance(&r, 1, 3) ? (int)vr_range(&r, 1024, 131072) : 0;
-    int const mode = (int)vr_u(&r, 4);       /* 0 own parser explicit, 1 own parser no delimiters, 2 generateSequences, 3 registered producer */
+    int maxBlock = vr_chance(&r, 1, 3) ? (int)vr_range(&r, 1024, 131072) : 0;
+    int const mode = (int)vr_u(&r, 4);
+    if (mode == 3 && vr_chance(&r, 1, 2)) maxBlock = (int)vr_range(&r, 1024, 16384);      /* producers are called once per block: many blocks = many producer decisions per frame */       /* 0 own parser explicit, 1 own parser no delimiters, 2 generateSequences, 3 registered producer */
     int const repSearch = (int)vr_range(&r, 0, 2); int const level = (int)vr_range(&r, 1, 12);
     size_t dictLen = 0; uint8_t* dict = NULL;
-    if (mode < 2 && vr_chance(&r, 1, 3)) { dictLen = 1 + vr_u(&r, 20000); dict = (uint8_t*)malloc(dictLen); if (n > 16) { for (size_t i = 0; i < dictLen; i++) dict[i] = src[(i * 3) % n]; memcpy(dict, src + vr_u64(&r, n / 2), V_MIN(dictLen, n / 2)); } else gen_data(&r, dict, dictLen, fam); }
+    if (mode < 2 && vr_chance(&r, 1, 3)) { dictLen = vr_chance(&r, 1, 3) ? 1 + vr_u(&r, 200000) : 1 + vr_u(&r, 20000); dict = (uint8_t*)malloc(dictLen); if (n > 16) { for (size_t i = 0; i < dictLen; i++) dict[i] = src[(i * 3) % n]; memcpy(dict, src + vr_u64(&r, n / 2), V_MIN(dictLen, n / 2)); } else gen_data(&r, dict, dictLen, fam); }
     parsecfg C; C.window = (size_t)1 << wlog; C.blockMax = V_MIN((size_t)(maxBlock ? maxBlock : (128 << 10)), C.window); C.minMatch = minMatch; C.explicitDelims = (mode == 0); C.dictLen = dictLen; C.dict = dict; C.style = (int)vr_u(&r, 4);
     size_t const cap = ZSTD_compressBound(n) + 64; uint8_t* dst = (uint8_t*)malloc(cap);
     ZSTD_CCtx* c = ZSTD_createCCtx();
@@ -162,12 +166,20 @@ static void run_positive(long idx)
         const char* inv = list_invalid(v.s, v.n, n, C.window, dictLen, C.blockMax, C.explicitDelims);
         if (inv) { fprintf(stderr, "harness bug: own parser produced an invalid list: %s (%s) case %ld\n", inv, desc, V.cur_case); { size_t bl = 0; for (size_t q = 0; q < v.n && q < 4000; q++) { bl += v.s[q].litLength + v.s[q].matchLength; if (v.s[q].litLength > 1000000 || v.s[q].matchLength > 1000000) fprintf(stderr, " BAD[%zu]=(%u,%u,%u) prev=(%u,%u,%u)", q, v.s[q].offset, v.s[q].litLength, v.s[q].matchLength, v.s[q-1].offset, v.s[q-1].litLength, v.s[q-1].matchLength); if (v.s[q].offset == 0) { bl = 0; } } } exit(2); }
         ZSTD_CCtx_setParameter(c, ZSTD_c_blockDelimiters, C.explicitDelims ? ZSTD_sf_explicitBlockDelimiters : ZSTD_sf_noBlockDelimiters);
-        if (dict) { if (vr_chance(&r, 1, 2)) ZSTD_CCtx_refPrefix_advanced(c, dict, dictLen, ZSTD_dct_rawContent); else ZSTD_CCtx_loadDictionary_advanced(c, dict, dictLen, ZSTD_dlm_byRef, ZSTD_dct_rawContent); }
+        /* half of the dictionaries are wrapped into a FORMATTED dictionary with unusual entropy tables (truncated alphabets, holes, "less than one" counts, odd repeat offsets):
+         * the parse only refers to the content; the tables are what the sequence encoder may re-use ("repeat" mode) in the first blocks */
+        uint8_t* fdict = NULL; size_t flen = 0; char feat[80] = "";
+        if (dict && dictLen >= 8 && vr_chance(&r, 1, 2)) { fdict = (uint8_t*)malloc(dictLen + 4096); flen = build_dict(&r, fdict, dictLen + 4096, dict, dictLen, feat, sizeof feat); if (!flen) { free(fdict); fdict = NULL; } }
+        if (fdict) { size_t const e = vr_chance(&r, 1, 2) ? ZSTD_CCtx_refPrefix_advanced(c, fdict, flen, ZSTD_dct_fullDict) : ZSTD_CCtx_loadDictionary_advanced(c, fdict, flen, ZSTD_dlm_byRef, ZSTD_dct_fullDict);
+            ZSTD_DDict* dd = ZSTD_createDDict_advanced(fdict, flen, ZSTD_dlm_byRef, ZSTD_dct_fullDict, ZSTD_defaultCMem);
+            if (ZSTD_isError(e) || !dd) { v_stat("formatted_dictionaries_refused_by_a_loader", 1); ZSTD_CCtx_refPrefix(c, NULL, 0); ZSTD_CCtx_loadDictionary(c, NULL, 0); free(fdict); fdict = NULL; } else v_stat("formatted_dictionaries", 1); ZSTD_freeDDict(dd); }
+        if (dict && !fdict) { if (vr_chance(&r, 1, 2)) ZSTD_CCtx_refPrefix_advanced(c, dict, dictLen, ZSTD_dct_rawContent); else ZSTD_CCtx_loadDictionary_advanced(c, dict, dictLen, ZSTD_dlm_byRef, ZSTD_dct_rawContent); }
         size_t const cs = ZSTD_compressSequences(c, dst, cap, v.s, v.n, src, n);
-        if (ZSTD_isError(cs)) v_viol("positive:valid-parse-refused", "%s nbSeq=%zu: %s", desc, v.n, ZSTD_getErrorName(cs));
-        else verify_frame("own-parser", dst, cs, src, n, dict, dictLen, desc, C.blockMax);
+        if (ZSTD_isError(cs)) v_viol("positive:valid-parse-refused", "%s nbSeq=%zu%s%s: %s", desc, v.n, fdict ? " formatted-dict " : "", feat, ZSTD_getErrorName(cs));
+        else { char d2[400]; snprintf(d2, sizeof d2, "%s%s%s", desc, fdict ? " formatted-dict " : "", feat); g_dictFormatted = fdict != NULL; verify_frame("own-parser", dst, cs, src, n, fdict ? fdict : dict, fdict ? flen : dictLen, d2, C.blockMax); g_dictFormatted = 0; }
+        free(fdict);
         v_stat("parse_sequences", (long)v.n); v_stat("parse_dict_reaching", st[0]); v_stat("parse_long_matches", st[1]); v_stat("parse_matches_crossing_128K", st[2]); v_stat("parse_explicit_blocks", st[3]);
-        v_cell("positive_cell", "%s|mm%u|rep%d|dict%d|style%d|maxblk%d", C.explicitDelims ? "explicit" : "nodelim", minMatch, repSearch, dictLen != 0, C.style, maxBlock != 0);
+        v_cell("positive_cell", "%s|mm%u|rep%d|dict%d|style%d|maxblk%d", C.explicitDelims ? "explicit" : "nodelim", minMatch, repSearch, dictLen == 0 ? 0 : feat[0] ? 2 : 1, C.style, maxBlock != 0);
         v_sample("%s nbSeq=%zu first=(%u,%u,%u)", desc, v.n, v.n ? v.s[0].offset : 0, v.n ? v.s[0].litLength : 0, v.n ? v.s[0].matchLength : 0);
         free(v.s);
     } else if (mode == 2) {
@@ -196,7 +208,9 @@ static void run_positive(long idx)
         }
         free(seqs);
     } else {
-        prodstate P; P.r = &r; P.C = &C; P.mode = vr_chance(&r, 1, 2) ? 0 : (int)vr_range(&r, 1, 3); P.calls = 0;
+        prodstate P; P.r = &r; P.C = &C; P.mode = vr_chance(&r, 1, 2) ? 0 : (int)vr_range(&r, 1, 3); P.calls = 0; P.failed = 0;
+        P.failMask = vr_chance(&r, 1, 4) ? 0xFFFFFFFFu : vr_chance(&r, 1, 2) ? (0xFFFFFFFFu << (1 + vr_u(&r, 4))) : (uint32_t)vr_next(&r);     /* always / works for the first 1..4 blocks then fails / per-block pattern */
+        P.maxSeqs = vr_chance(&r, 1, 2) ? (int)vr_u(&r, 7) : -1;
         int const fallback = (int)vr_u(&r, 2);
         ZSTD_registerSequenceProducer(c, &P, producer);
         ZSTD_CCtx_setParameter(c, ZSTD_c_enableSeqProducerFallback, fallback);
@@ -204,7 +218,7 @@ static void run_positive(long idx)
         size_t cs;
         if (vr_chance(&r, 1, 2)) cs = ZSTD_compress2(c, dst, cap, src, n);
         else { ZSTD_inBuffer in = { src, n, 0 }; ZSTD_outBuffer out = { dst, cap, 0 }; size_t rr; int guard = 0; do { rr = ZSTD_compressStream2(c, &out, &in, ZSTD_e_end); } while (!ZSTD_isError(rr) && rr && ++guard < 100000); cs = ZSTD_isError(rr) ? rr : out.pos; }
-        int const producerFails = (P.mode != 0) && P.calls > 0 && n > 0;
+        int const producerFails = P.failed > 0;
         if (producerFails && P.mode == 3 && !ZSTD_isError(cs)) { /* zero sequences for a non-empty block is "invalid result": treated as error -> fallback or failure */ }
         if (ZSTD_isError(cs)) {
             if (!producerFails) v_viol("producer:good-producer-refused", "%s: %s", desc, ZSTD_getErrorName(cs));
@@ -216,7 +230,7 @@ static void run_positive(long idx)
             if (producerFails) v_stat("producer_fallbacks", 1);
         }
         v_stat("producer_calls", P.calls);
-        v_cell("positive_cell", "producer|mode%d|fallback%d", P.mode, fallback);
+        v_cell("positive_cell", "producer|mode%d|fallback%d|%s|%s", P.mode, fallback, P.failed == 0 ? "never-fails" : P.failed == P.calls ? "always-fails" : "fails-on-some-blocks", P.maxSeqs >= 0 ? "few-sequences" : "full-parse");
     }
     ZSTD_freeCCtx(c); free(dst); free(dict); free(src);
 }
